@@ -221,4 +221,120 @@ def run : Client → List Call → List ReqHeader
   | c, .batch n opts :: rest => batchOptHeader c n opts :: run c rest
   | c, .clone :: rest => run (clone c) rest
 
+/-! ### `Client.version` as the MUTABLE POINTER it is
+
+  `c.version` is a `*kmip.ProtocolVersion` field: `DialContext` copies the pointer held by the
+  `EnforceVersion` option, `negotiateVersion` stores the address of a fresh variable — or, in the 1.0
+  fallback, `&kmip.V1_0`, the address of an EXPORTED PACKAGE VARIABLE —, `CloneCtx` allocates a copy,
+  `BatchOpt` and `Version()` dereference it, `reconnect` does not touch it. "Every subsequent request carries
+  the adopted version" is therefore a statement about a store of version variables and about every
+  operation that may run after `Dial`: requests, lost connections followed by reconnection, clones (of
+  clones), `Close`, and assignments to `kmip.V1_0` by other code of the program. -/
+
+/-- the store of `kmip.ProtocolVersion` variables; address 0 is the package variable `kmip.V1_0`. -/
+structure Store where
+  next : Nat
+  val : Nat → Version
+
+def addrV10 : Nat := 0
+
+def Store.init : Store := { next := 1, val := fun _ => v10 }
+
+/-- a fresh variable holding `v` (`v := …; &v`). -/
+def Store.alloc (s : Store) (v : Version) : Store × Nat :=
+  ({ next := s.next + 1, val := fun a => if a = s.next then v else s.val a }, s.next)
+
+def Store.write (s : Store) (a : Nat) (v : Version) : Store :=
+  { s with val := fun b => if b = a then v else s.val b }
+
+/-- `kmipclient.Client`: the version POINTER, the configured list, `closed`, and whether the current
+    connection is usable. -/
+structure MClient where
+  ver : Nat
+  supported : List Version
+  closed : Bool := false
+  connUp : Bool := true
+  deriving Repr, DecidableEq, Inhabited
+
+/-- `EnforceVersion(v)`: the option captures the address of its parameter. -/
+def enforceOption (s : Store) (v : Version) : Store × Nat := s.alloc v
+
+/-- `DialContext` over the store: `enforce` is the pointer held by the `EnforceVersion` option. -/
+def dialM (t : Tables) (s : Store) (calls : List (List Version)) (enforce : Option Nat) (sb : ServerBehaviour) :
+    Res (Store × MClient) :=
+  let C := clientList { calls := calls, enforce := none }
+  match enforce with
+  | some p => .ok (s, { ver := p, supported := C })                       -- `version: opts.enforceVersion`
+  | none =>
+    let rt := respond sb discoverHeader C
+    match negotiate t C rt with
+    | .err e => .err e
+    | .panic => .panic
+    | .ok v =>
+      -- which assignment of `negotiateVersion` ran: `c.version = &kmip.V1_0` or `c.version = version`
+      let fallback : Bool := match rt with
+        | .msg _ (bi :: _) => bi.status = statusFailed ∧ bi.reason = reasonNotSupported
+        | _ => false
+      if fallback then .ok (s, { ver := addrV10, supported := C })
+      else
+        let (s', p) := s.alloc v
+        .ok (s', { ver := p, supported := C })
+
+/-- the clients of a program and the store. -/
+structure World where
+  store : Store
+  clients : List MClient
+
+/-- what may happen after `Dial`. -/
+inductive Step where
+  | request (i : Nat) (n : Nat) (opts : List Nat)   -- client `i`: `BatchOpt` with `n` payloads and these options
+  | connLost (i : Nat)                              -- its connection dies (EOF, reset, abandoned call)
+  | clone (i : Nat)                                 -- `CloneCtx`: the new client gets the next index
+  | close (i : Nat)
+  | assignV10 (v : Version)                         -- other code of the program: `kmip.V1_0 = v`
+  deriving Repr, Inhabited
+
+def setClient (cs : List MClient) (i : Nat) (c : MClient) : List MClient := cs.set i c
+
+/-- one step: the new world and the request header put on the wire, if any.
+    `request`: `doRountrip` refuses a closed client (nothing is sent); a dead connection is replaced
+    (`reconnect`: a new connection, NO negotiation) and the message built from `*c.version` is sent. -/
+def step (w : World) : Step → World × Option (Nat × ReqHeader)
+  | .request i n opts =>
+    match w.clients[i]? with
+    | none => (w, none)
+    | some c =>
+      if c.closed then (w, none)
+      else
+        let hd := batchOptHeader { version := w.store.val c.ver, supported := c.supported } n opts
+        ({ w with clients := setClient w.clients i { c with connUp := true } }, some (i, hd))
+  | .connLost i =>
+    match w.clients[i]? with
+    | none => (w, none)
+    | some c => ({ w with clients := setClient w.clients i { c with connUp := false } }, none)
+  | .clone i =>
+    match w.clients[i]? with
+    | none => (w, none)
+    | some c =>
+      -- `version := *c.version; … version: &version` — cloning a closed client is valid
+      let (s', p) := w.store.alloc (w.store.val c.ver)
+      ({ store := s', clients := w.clients ++ [{ ver := p, supported := c.supported }] }, none)
+  | .close i =>
+    match w.clients[i]? with
+    | none => (w, none)
+    | some c => ({ w with clients := setClient w.clients i { c with closed := true } }, none)
+  | .assignV10 v => ({ w with store := w.store.write addrV10 v }, none)
+
+/-- the request headers a sequence of steps puts on the wire, each with the index of the sending client. -/
+def runM : World → List Step → List (Nat × ReqHeader)
+  | _, [] => []
+  | w, st :: rest =>
+    match step w st with
+    | (w', some out) => out :: runM w' rest
+    | (w', none) => runM w' rest
+
+def Step.isAssign : Step → Bool
+  | .assignV10 _ => true
+  | _ => false
+
 end Kmip.Nego
